@@ -77,7 +77,10 @@ def run(ctx):
     distinct = set()
     n = ctx.n(160, 4000)
     for t in range(n):
-        mode = "canvas" if t % 4 != 3 else rng.choice(["robsd", "robsd-cross", "robsd-ports", "robsd-regress"])
+        mode = "canvas" if t % 4 != 3 else rng.choice(["robsd", "robsd-cross", "robsd-ports", "robsd-regress", "robsd-regress", "robsd-regress"])
+        forced = {3: "end", 7: "last-test", 11: "umount", 15: "last-test"}.get(t)     # always: a mostly serial regress schedule, asked for its tail
+        if forced:
+            mode = "robsd-regress"
         trace = rng.random() < 0.4
         skip = rng.sample(["s0", "zz", "x y"], rng.randint(0, 2))
         env = {"canvas-name": "the name", "robsddir": root, "canvas-dir": root, "keep-dir": "${robsddir}/attic", "tmp-dir": "${builddir}/tmp",
@@ -116,7 +119,17 @@ def run(ctx):
             body = {"robsd": 'robsddir "%s"\ndestdir "%s"\nbsd-srcdir "%s"\ncvs-root "x:/cvs"\ncvs-user "nobody"\nx11-srcdir "%s"\n' % (root, root, root, root),
                     "robsd-cross": 'robsddir "%s"\ncrossdir "%s"\nbsd-srcdir "%s"\n' % (root, root, root),
                     "robsd-ports": 'robsddir "%s"\nchroot "%s"\ncvs-root "x:/cvs"\ncvs-user "nobody"\nports-dir "/ports"\nports-user "nobody"\nports { "devel/robsd" }\n' % (root, root),
-                    "robsd-regress": 'robsddir "%s"\nbsd-srcdir "%s"\ncvs-user "nobody"\nregress "bin/ksh"\nregress "lib/libc"\nregress "lib/libcrypto"\n' % (root, root)}[mode]
+                    "robsd-regress": 'robsddir "%s"\nbsd-srcdir "%s"\ncvs-user "nobody"\n' % (root, root)}[mode]
+            rtests = []
+            if mode == "robsd-regress":
+                # 1-20 tests, some of them no-parallel: the schedule is the fixed steps around them
+                rtests = ["bin/ksh", "lib/libc", "lib/libcrypto"][:rng.randint(1, 3)] + ["t/s%d" % i for i in range(rng.choice([0, 3, 9, 17, 25]))]
+                q = rng.choice([0.1, 0.5, 0.9, 1.0])      # from nearly all parallel to all serial
+                if forced:
+                    q = 1.0 if t != 15 else 0.85
+                    rtests = ["bin/ksh", "lib/libc"] + ["t/s%d" % i for i in range(9 if t != 15 else 25)]
+                for tn in rtests:
+                    body += 'regress "%s"%s\n' % (tn, " no-parallel" if rng.random() < q else "")
             r = subprocess.run([os.path.join(d, "robsd-step"), "-L", "-m", mode, "-C", "/dev/stdin"], input=body.encode(), capture_output=True,
                                env=dict(os.environ, ASAN_OPTIONS="detect_leaks=0"))
             names = [l.split(" ")[1] for l in r.stdout.decode().split("\n") if l]
@@ -127,7 +140,14 @@ def run(ctx):
                     sched.append((nm, ["sh", "-eu", "${trace}", "${exec-dir}/robsd-regress-exec.sh", nm]))
                 else:
                     sched.append((nm, None))
-            name = rng.choice(names + ["nosuch", "lib/lib"])
+            # what must be a step whatever -L prints: every configured test, and the fixed steps around them
+            must = rtests + (["env", "end", "umount", "dmesg"] if mode == "robsd-regress" else ["env", "end"])
+            for nm in must:
+                if nm not in [x[0] for x in sched]:
+                    sched.append((nm, ["sh", "-eu", "${trace}", "${exec-dir}/robsd-regress-exec.sh", nm] if nm in rtests else None))
+            name = rng.choice(names + ["nosuch", "lib/lib"]) if rng.random() < 0.4 else rng.choice(must[-6:] if rng.random() < 0.6 else must)
+            if forced:
+                name = rtests[-1] if forced == "last-test" else forced
         conf = os.path.join(root, "t.conf")
         with open(conf, "w") as f:
             f.write(body)
@@ -173,8 +193,11 @@ def run(ctx):
         if first is None:
             if rc == 0 or ran or not err:
                 ctx.violation("unknown step '%s': expected non-zero exit, a diagnostic and nothing run (rc=%s)" % (name, rc), dict(conf=body, ran=ran))
-        elif mode != "canvas" and first == "script":
+        elif mode != "canvas" and (first == "script" or (isinstance(first, list) and first[-1] == name and first[-2].endswith("robsd-regress-exec.sh"))):
             # sh -eu [-x] <execdir>/<script> <name>
+            if not ran:
+                ctx.violation("configured step '%s' of %s was not launched: robsd-exec exited %s (%s)" % (name, mode, rc, err.decode(errors="replace").strip()[-120:]),
+                              dict(conf=body, mode=mode, trace=trace))
             if ran:
                 a = [bytes.fromhex(x).decode() for x in ran[0]]
                 ok = a[0] == "sh" and a[1] == "-eu" and a[-1] == name and (a[-2].startswith(stubs + "/robsd-") or (name == "end" and a[-2] == "/dev/null")) and (a[2] == "-x") == trace and len(a) == (5 if trace else 4)
